@@ -8,5 +8,10 @@ import (
 )
 
 func main() {
-	lib.Main("C04", func(c *lib.Ctx) { e2e.RunSchedProperty(c, "C04") })
+	lib.Main("C04", func(c *lib.Ctx) {
+		e2e.RunSchedProperty(c, "C04")
+		if c.Replay == "" {
+			semiStream(c) // the Semiactive/Active arcs, in process (semi.go)
+		}
+	})
 }
